@@ -16,8 +16,8 @@ PYTHONPATH=$W/src /venv/bin/python $D/demo.py > $W.demo1.log 2>&1; R1=$?
 echo "demo_unchanged=$R0 tests_with_patch=$RT ($(tail -1 $W.tests.log)) demo_with_patch=$R1"
 cd /verif
 for C in $CHECKS; do
-  VERIF_NO_EVIDENCE=1 PYTHONPATH=$W/src ./check $C --tier quick > /tmp/ver/check-$P-$C.log 2>&1; RC=$?
-  echo "check $C rc=$RC violations=$(grep -c '^VIOLATION' /tmp/ver/check-$P-$C.log) $(grep '^VIOLATION' -A1 /tmp/ver/check-$P-$C.log | sed -n 2p | cut -c1-160)"
-  tail -1 /tmp/ver/check-$P-$C.log | cut -c1-200
+  VERIF_NO_EVIDENCE=1 PYTHONPATH=$W/src ./check $C --tier quick > /tmp/ver/check-$P-$(basename $D)-$C.log 2>&1; RC=$?
+  echo "check $C rc=$RC violations=$(grep -c '^VIOLATION' /tmp/ver/check-$P-$(basename $D)-$C.log) $(grep '^VIOLATION' -A1 /tmp/ver/check-$P-$(basename $D)-$C.log | sed -n 2p | cut -c1-160)"
+  tail -1 /tmp/ver/check-$P-$(basename $D)-$C.log | cut -c1-200
 done
 git -C /repo worktree remove --force $W; rm -f $W.demo0.log $W.tests.log $W.demo1.log
